@@ -34,9 +34,6 @@ Definition dec_opt (f : bytes) : option bytes :=
 Definition dec_quit (f : bytes) : option bool :=
   if bytes_eqb f (bs "T") then Some true else if bytes_eqb f (bs "F") then Some false else None.
 
-Definition opt_utf8 (o : option bytes) : bool :=
-  match o with None => true | Some v => utf8_valid v end.
-
 (* cases:  rt <protocol> <host> <path> <username> <password> <url> <quit>  |  parse <bytes> *)
 Definition run_model (fs : list bytes) : bytes :=
   let op := nth_field 0 fs in
@@ -44,8 +41,7 @@ Definition run_model (fs : list bytes) : bytes :=
     let c := mk_ctx (dec_opt (nth_field 1 fs)) (dec_opt (nth_field 2 fs)) (dec_opt (nth_field 3 fs))
                     (dec_opt (nth_field 4 fs)) (dec_opt (nth_field 5 fs)) (dec_opt (nth_field 6 fs))
                     (dec_quit (nth_field 7 fs)) in
-    if opt_utf8 (c_protocol c) && opt_utf8 (c_host c) && opt_utf8 (c_username c)
-       && opt_utf8 (c_password c) then
+    if strings_utf8 c then
       match write_to c with
       | (out, Ok _) => bs "w ok " ++ hx out ++ bs " r " ++ show_parse (from_bytes out)
       | (out, Err e) => bs "w err " ++ err_name e ++ bs " " ++ hx out
